@@ -24,7 +24,8 @@ let params_of = function
       mo_ld_once = mo_of_string g }
   | _ -> sc_params
 
-type scen = { flag : int; capreq : int; thr : bool; pre : int; wc : int list; rq : (int * string) list }
+type scen = { flag : int; capreq : int; thr : bool; pre : int; wc : int list; rq : (int * string) list;
+              vals : (int * int) list }
 
 let mk_cfg (sc : scen) (wm, rm) : cfg =
   let nw = List.length sc.wc and nr = List.length sc.rq in
@@ -33,7 +34,9 @@ let mk_cfg (sc : scen) (wm, rm) : cfg =
     c_nw = nat_of_int nw; c_nr = nat_of_int nr; c_thr = sc.thr; c_pre = z_of_int sc.pre;
     c_wcnt = (fun t -> let i = int_of_nat t in if i < nw then nat_of_int wa.(i) else O);
     c_rq = (fun t -> let i = int_of_nat t - nw in if i >= 0 && i < nr then nat_of_int (fst ra.(i)) else O);
-    c_idx0 = (fun t -> let i = int_of_nat t - nw in if i >= 0 && i < nr then z_of_string (snd ra.(i)) else Z0) }
+    c_idx0 = (fun t -> let i = int_of_nat t - nw in if i >= 0 && i < nr then z_of_string (snd ra.(i)) else Z0);
+    (* pointer value carried by message id: its own payload object unless the case names another value *)
+    c_val = (fun m -> match List.assoc_opt (int_of_z m) sc.vals with Some c when c < 0 -> z_of_int c | _ -> m) }
 
 (* model-level search: random schedules of the MODEL under the given memory-order parameters,
    looking for a state in which the uncovered-read monitor fires.  Used only to produce a
@@ -65,13 +68,15 @@ let handle (lines : string list) : unit =
     | x :: rest -> split (x :: acc) rest
     | [] -> (List.rev acc, []) in
   let (cfgl, trace) = split [] lines in
-  let sc = ref None and wc = ref [] and rq = ref [] and prm = ref sc_params
+  let sc = ref None and wc = ref [] and rq = ref [] and vals = ref [] and prm = ref sc_params
   and explore = ref None and modes = ref false in
   List.iter (fun l -> match words l with
     | ["rb"; f; c; th; pre] -> sc := Some (int_of_string f, int_of_string c, th <> "0", int_of_string pre)
     | "w" :: xs -> wc := List.map int_of_string xs
     | "r" :: xs -> rq := List.map (fun e -> match String.split_on_char ':' e with
         | [q; i] -> (int_of_string q, i) | _ -> failwith "bad reader entry") xs
+    | "v" :: xs -> vals := !vals @ List.map (fun e -> match String.split_on_char ':' e with
+        | [i; c] -> (int_of_string i, int_of_string c) | _ -> failwith "bad value entry") xs
     | ["modes"] -> modes := true
     | "params" :: ps -> prm := params_of ps
     | ["explore"; sd; runs] -> explore := Some (int_of_string sd, int_of_string runs)
@@ -85,7 +90,7 @@ let handle (lines : string list) : unit =
   match !sc with
   | None -> print_endline "F badcase"
   | Some (flag, capreq, thr, pre) ->
-    let s = { flag; capreq; thr; pre; wc = !wc; rq = !rq } in
+    let s = { flag; capreq; thr; pre; wc = !wc; rq = !rq; vals = !vals } in
     let n = List.length s.wc + List.length s.rq in
     if n <= 0 || n > 12 then print_endline "F badcase"
     else if capreq <= 0 then Printf.printf "F init=%s\n" (string_of_z err_invalid_param)
